@@ -264,6 +264,8 @@ def run(ctx: Ctx):
     # 30 (300) runs are validated against DispatcherLoops (model checked in C04): an ACKed block may not sit in the queue unnoticed
     from . import c04_trace
     c04_trace.check(ctx, wd, pmap, only_plain=True)
+    from . import c17_txn
+    c17_txn.check(ctx, wd, pmap)
     ctx.rule = ("transfers = 2 directions x body sizes {0,1,244,245,600} x chunking {whole blocks, single bytes, random} x 2 headers "
                 "without fault + sequences of 3-4 messages on one long-lived line with reused system bytes + one-byte corruptions (every position of short blocks, boundary + sampled positions of long ones, two "
                 "deltas, every single-bit flip of every header byte) under fifo/random/PCT schedules; judged against reference blocks computed by TLC")
